@@ -34,6 +34,9 @@ var c18Kinds = []c18Kind{
 	{"stdlib-fmt", "goroot", "src", "fmt/print.go", true, "", "fmt.Println"},
 	{"stdlib-http", "goroot", "src", "net/http/server.go", true, "", "net/http.(*Server).Serve"},
 	{"stdlib-missing", "goroot", "src", "os/missing.go", false, "", "os.Missing"},
+	{"stdlib-assembly", "goroot", "src", "runtime/asm_amd64.s", true, "", "runtime.asmcgocall"},
+	{"gp1-src-c-file", "gp1", "src", "example.com/a/native.c", true, "", "example.com/a._Cfunc_native"},
+	{"gp1-src-unparsable-go", "gp1", "src", "example.com/a/broken.go", true, "", "example.com/a.Broken"},
 	{"gp1-src", "gp1", "src", "example.com/a/a.go", true, "", "example.com/a.A"},
 	{"gp1-src-sub", "gp1", "src", "example.com/a/sub/s.go", true, "", "example.com/a/sub.S"},
 	{"gp1-src-missing", "gp1", "src", "example.com/gone/g.go", false, "", "example.com/gone.G"},
@@ -68,6 +71,9 @@ func c18Tree(root string) {
 	files := map[string]string{
 		"goroot/src/fmt/print.go":                        "package fmt\n",
 		"goroot/src/net/http/server.go":                  "package http\n",
+		"goroot/src/runtime/asm_amd64.s":                 "TEXT ·asmcgocall(SB),NOSPLIT,$0-20\n\tRET\n",
+		"gp1/src/example.com/a/native.c":                 "int native(int a) { return a; }\n",
+		"gp1/src/example.com/a/broken.go":                "package a\n\nfunc Broken(a int {\n",
 		"gp1/src/example.com/a/a.go":                     "package a\n",
 		"gp1/src/example.com/a/sub/s.go":                 "package sub\n",
 		"gp1/src/example.com/q/fmt/print.go":             "package fmt\n",
@@ -292,7 +298,21 @@ func (c c18Cfg) expect(root string) (wants []c18Want, remoteGOROOT string, remot
 // directory may have been registered as a go-run root.
 func accidentalRunDir(c c18Cfg, root string, k *c18Kind) bool { return false }
 
+// c18Check: the mapping is decided by path guessing; with source analysis on as well
+// (the stage that opens the mapped files) it must come out the same.
 func c18Check(root string, c c18Cfg, key string) *h.Viol {
+	if v := c18CheckOpts(root, c, key, false); v != nil {
+		return v
+	}
+	if v := c18CheckOpts(root, c, key, true); v != nil {
+		v.Fingerprint = strings.Replace(v.Fingerprint, "C18/", "C18/analysis-on/", 1)
+		v.Summary = "with source analysis on: " + v.Summary
+		return v
+	}
+	return nil
+}
+
+func c18CheckOpts(root string, c c18Cfg, key string, analyse bool) *h.Viol {
 	var b strings.Builder
 	b.WriteString("goroutine 1 [running]:\n")
 	for _, ki := range c.frames {
@@ -304,7 +324,7 @@ func c18Check(root string, c c18Cfg, key string) *h.Viol {
 		fmt.Fprintf(&b, "created by %s in goroutine 5\n\t%s:%d +0x1\n", k.fn, c.remotePath(root, k), 99)
 	}
 	in := []byte(b.String())
-	opts := &Opts{GuessPaths: true}
+	opts := &Opts{GuessPaths: true, AnalyzeSources: analyse}
 	if c.goroot {
 		opts.LocalGOROOT = c18LocalRoot(root, "goroot")
 	}
